@@ -80,7 +80,7 @@ def check(prop, tier, seed, replay=None):
                     n_ok += 1
                     if len(c.ext) >= 1: rep.nontrivial(('view', c.line()))
                     continue
-                if not c.adm: continue
+                if not c.adm and getattr(c, 'stream', '') != 'default-ctor': continue      # default construction takes no input: always valid
                 for (op, xi, xm) in zip(c.ops, c.impl, c.model):
                     rep.cov['evaluations'] += 1
                     if xm == 'ub': continue
